@@ -20,6 +20,7 @@ RULE = ('(In 30% of the generated programs the token store works with blocks of 
         'removed / inserted child or is a separator-class token (whitespace, newline, list comma) in the separator run touching it, and '
         'surviving tokens keep identity, order and text; (4) P\'s zero-width marks survive. Non-trivial = the document has tokens on both '
         'sides of P and the affected child is not P\'s last child (or the list has >= 2 items and the index is not the end).')
+RULE = RULE + " Round 8: assign-then-view-edit enumeration (a list replaced by a deep copy of another model's list, one edit of the copy, one edit through a value view of the donor)."
 ASSUMPTIONS = [
     're-parsability of the result is C06\'s; documents parsed with attribution off (and states reached through unclaim) are outside the statement',
     'for the documented dependent groups (cost number/currency family, payee/narration) the group is one logical child',
